@@ -153,9 +153,11 @@ def main():
         broken_ties=[f.to_json() for f in failures[:10]],
         lean_build_s=aud.get("build_s"),
     )
-    if a.tier == "thorough" and rc == 0 and getattr(chk, "leanchecker_mods", None):
-        ok, out = lean.leanchecker(chk.leanchecker_mods)
-        cov["leanchecker"] = dict(modules=chk.leanchecker_mods, ok=ok, tail=out[-400:])
+    if a.tier == "thorough" and rc == 0:
+        # independent re-check of the compiled theorem modules of this property (default: its Props file)
+        mods = getattr(chk, "leanchecker_mods", None) or ["LapyVerif.Props." + a.prop]
+        ok, out = lean.leanchecker(mods)
+        cov["leanchecker"] = dict(modules=mods, ok=ok, tail=out[-400:])
         if not ok:
             print("infrastructure: leanchecker rejected the compiled modules\n" + out[-2000:])
             return 2
